@@ -13,10 +13,19 @@ pub fn resolution(q: f64, n: f64, k: f64) -> f64 {
 
 /// structure + accuracy of one digest state against the exact data
 pub fn check_digest(ctx: &mut Ctx, d: &mut TDigestMut, exact: &Exact, shape: &str, what: &str) {
+    let k = d.k();
+    check_digest_acc(ctx, d, exact, shape, what, k);
+}
+
+/// `k_acc`: the k that limits the accuracy -- the smallest k any part of the data was ever summarised with (a digest
+/// built with k = 10 does not become more accurate by being merged into a receiver of k = 100). The structural
+/// bounds (centroid count, image size) are always those of the digest's own k.
+pub fn check_digest_acc(ctx: &mut Ctx, d: &mut TDigestMut, exact: &Exact, shape: &str, what: &str, k_acc: u16) {
     ctx.evals(1);
-    let k = d.k() as f64;
+    let k_own = d.k() as f64;
+    let k = k_acc as f64;
     let n = exact.n();
-    let tag = format!("{} [k={} n={} shape={}]", what, d.k(), n, shape);
+    let tag = format!("{} [k={} (accuracy judged at k={}) n={} shape={}]", what, d.k(), k_acc, n, shape);
     if d.total_weight() != n as u64 {
         ctx.violation("total_weight != number of finite values offered", format!("{}: {}", tag, d.total_weight()));
     }
@@ -61,8 +70,8 @@ pub fn check_digest(ctx: &mut Ctx, d: &mut TDigestMut, exact: &Exact, shape: &st
         }
     };
     let nc = im.centroids.len();
-    ctx.cover_max("max_centroids_over_2k_plus_30", nc as f64 / (2.0 * k + 30.0));
-    if nc as f64 > 2.0 * k + 30.0 {
+    ctx.cover_max("max_centroids_over_2k_plus_30", nc as f64 / (2.0 * k_own + 30.0));
+    if nc as f64 > 2.0 * k_own + 30.0 {
         ctx.violation("more than 2k+30 centroids", format!("{}: {} centroids", tag, nc));
     }
     let want_len = if n == 1 { 16 } else { 32 + 16 * nc };
@@ -76,6 +85,29 @@ pub fn check_digest(ctx: &mut Ctx, d: &mut TDigestMut, exact: &Exact, shape: &st
     let (min, max) = (exact.sorted[0], exact.sorted[n - 1]);
     if im.min != min || im.max != max {
         ctx.violation("min/max are not the exact extremes", format!("{}: {} {} want {} {}", tag, im.min, im.max, min, max));
+    }
+    // no cluster heavier than the scale function admits at its place (weight > 1 only; calibration: see DESIGN 12.1)
+    {
+        let nf = n as f64;
+        let mut cum = 0u64;
+        let mut worst = 0.0f64;
+        for c in &im.centroids {
+            let q = (cum as f64 + c.1 as f64 / 2.0) / nf;
+            if c.1 > 1 {
+                worst = worst.max((c.1 as f64 / nf) / resolution(q, nf, k));
+            }
+            cum += c.1;
+        }
+        ctx.cover_max(&format!("heaviest_cluster_over_u_{}", shape), worst);
+        ctx.cover_max("heaviest_cluster_over_u", worst);
+        // on the repaired tree the ratio is at most 1.00 in every shape, order, k and merge tree (it is the rule the
+        // merge applies); 1.5 leaves room for the rounding of q at small n
+        if worst > 1.5 {
+            ctx.violation(
+                &format!("a cluster is heavier than the scale function admits | shape={}", shape),
+                format!("{}: heaviest cluster = {:.2} x the admissible size at its quantile", tag, worst),
+            );
+        }
     }
     let sorted = im.centroids.windows(2).all(|w| w[0].0 <= w[1].0);
     let inside = im.centroids.iter().all(|c| c.0 >= min && c.0 <= max);
@@ -92,6 +124,41 @@ pub fn check_digest(ctx: &mut Ctx, d: &mut TDigestMut, exact: &Exact, shape: &st
     for j in 0..20.min(n) {
         probes.push(exact.sorted[j]);
         probes.push(exact.sorted[n - 1 - j]);
+    }
+    // between the data: midpoints of adjacent distinct values (just beside a heavy atom the rank must already have
+    // jumped by the atom's whole mass)
+    let step = (n / 200).max(1);
+    let mut j = 0;
+    while j + 1 < n {
+        let (a, b) = (exact.sorted[j], exact.sorted[j + 1]);
+        if a < b {
+            let mid = a + (b - a) / 2.0;
+            if mid > a && mid < b {
+                probes.push(mid);
+            }
+        }
+        j += step;
+    }
+    // and on both sides of the heaviest atom
+    {
+        let mut best = (0usize, 0usize);
+        let mut i = 0;
+        while i < n {
+            let hi = exact.sorted.partition_point(|x| *x <= exact.sorted[i]);
+            if hi - i > best.1 {
+                best = (i, hi - i);
+            }
+            i = hi;
+        }
+        if best.1 > 1 {
+            let v = exact.sorted[best.0];
+            if best.0 > 0 {
+                probes.push(exact.sorted[best.0 - 1] + (v - exact.sorted[best.0 - 1]) / 2.0);
+            }
+            if best.0 + best.1 < n {
+                probes.push(v + (exact.sorted[best.0 + best.1] - v) / 2.0);
+            }
+        }
     }
     let mut worst = 0.0f64;
     let mut worst_units = 0.0f64;
@@ -117,7 +184,7 @@ pub fn check_digest(ctx: &mut Ctx, d: &mut TDigestMut, exact: &Exact, shape: &st
     ctx.cover_max(&format!("worst_error_over_u_{}", shape), worst);
     ctx.cover_max(&format!("worst_error_in_units_of_q(1-q)/k+1/n_{}", shape), worst_units);
     if n >= 1000 {
-        ctx.cover_max(&format!("worst_units_n>=1000_k{}", d.k()), worst_units);
+        ctx.cover_max(&format!("worst_units_n>=1000_k{}", k_acc), worst_units);
     }
     if worst > 3.0 {
         // the shape label is part of the signature: one exotic input family must not mask the others
@@ -222,9 +289,98 @@ fn stream_case(ctx: &mut Ctx, case: &Json) {
     ctx.end_case(fp.get(), ex.n() > 1);
 }
 
+/// "Chatty" use: the digest is queried after every single update (each query compresses whatever is buffered).
+fn chatty_case(ctx: &mut Ctx, case: &Json) {
+    let mut rng = Rng::new(case.u64("seed").unwrap_or(0));
+    let k = case.u64("k").unwrap_or(100) as u16;
+    let shape = case.str("shape").unwrap_or("uniform").to_string();
+    let n = case.u64("n").unwrap_or(3000) as usize;
+    let mut values = gen_values(&mut rng, &shape, n);
+    match case.u64("order").unwrap_or(0) {
+        1 => values.sort_by(|a, b| a.partial_cmp(b).unwrap()),
+        2 => values.sort_by(|a, b| b.partial_cmp(a).unwrap()),
+        _ => {}
+    }
+    let mut d = TDigestMut::new(k);
+    let limit = 32 + 16 * (2 * k as usize + 30);
+    let mut all = vec![];
+    for (i, &v) in values.iter().enumerate() {
+        d.update(v);
+        all.push(v);
+        let _ = match i % 3 {
+            0 => d.rank(v),
+            1 => d.quantile(0.5),
+            _ => d.cdf(&[v]).map(|c| c[0]),
+        };
+        if i % 97 == 96 || i + 1 == values.len() {
+            ctx.evals(1);
+            let len = d.serialize().len();
+            if len > limit {
+                ctx.violation("more than 2k+30 centroids", format!("queried after every update [k={} shape={} order={}]: image of {} bytes after {} values (limit {})", k, shape, case.u64("order").unwrap_or(0), len, i + 1, limit));
+                break;
+            }
+        }
+    }
+    let ex = Exact::new(all);
+    check_digest(ctx, &mut d, &ex, &shape, "queried after every update");
+    ctx.cover("chatty_cases");
+    let mut fp = Fp::new();
+    fp.u64(k as u64);
+    fp.u64(n as u64);
+    fp.u64(rt::mix_str(&shape));
+    fp.u64(case.u64("seed").unwrap_or(0));
+    ctx.end_case(fp.get(), n > 1);
+}
+
+/// A fresh receiver takes over a digest built with another k: it must come out as a digest of *its own* k.
+fn adopt_case(ctx: &mut Ctx, case: &Json) {
+    let mut rng = Rng::new(case.u64("seed").unwrap_or(0));
+    let (k_recv, k_src) = (case.u64("k").unwrap_or(20) as u16, case.u64("k_src").unwrap_or(200) as u16);
+    let shape = case.str("shape").unwrap_or("uniform").to_string();
+    let n = case.u64("n").unwrap_or(20_000) as usize;
+    let values = gen_values(&mut rng, &shape, n);
+    let mut src = TDigestMut::new(k_src);
+    for &v in &values {
+        src.update(v);
+    }
+    // the operand has been used: queried, or round-tripped (nothing buffered)
+    let src = match case.u64("via").unwrap_or(0) {
+        0 => {
+            let _ = src.quantile(0.5);
+            src
+        }
+        1 => match TDigestMut::deserialize(&src.serialize(), false) {
+            Ok(x) => x,
+            Err(_) => src,
+        },
+        _ => src,
+    };
+    let mut r = TDigestMut::new(k_recv);
+    if case.bool("used_receiver").unwrap_or(false) {
+        r.update(values.first().copied().unwrap_or(0.0));
+        r.merge(&src);
+        let mut all = values.clone();
+        all.push(values.first().copied().unwrap_or(0.0));
+        check_digest_acc(ctx, &mut r, &Exact::new(all), &shape, &format!("used receiver k={} after merging a k={} digest", k_recv, k_src), k_recv.min(k_src));
+    } else {
+        r.merge(&src);
+        check_digest_acc(ctx, &mut r, &Exact::new(values.clone()), &shape, &format!("fresh receiver k={} after merging a k={} digest", k_recv, k_src), k_recv.min(k_src));
+    }
+    ctx.cover("adopt_cases");
+    let mut fp = Fp::new();
+    fp.u64(k_recv as u64);
+    fp.u64(k_src as u64);
+    fp.u64(case.u64("seed").unwrap_or(0));
+    ctx.end_case(fp.get(), n > 1);
+}
+
 pub fn run_case(ctx: &mut Ctx, case: &Json) {
     ctx.begin_case(case.clone());
-    let r = rt::guard(|| stream_case(ctx, case));
+    let r = rt::guard(|| match case.str("lane") {
+        Some("chatty") => chatty_case(ctx, case),
+        Some("adopt") => adopt_case(ctx, case),
+        _ => stream_case(ctx, case),
+    });
     if let Err(p) = r {
         ctx.panic_violation("TDigest", &p);
     }
@@ -260,6 +416,31 @@ pub fn run(ctx: &mut Ctx) {
         run_case(ctx, &case);
         if i < 2 {
             ctx.sample(case);
+        }
+    }
+    // chatty use and receivers of another k: a few per shard
+    {
+        let mut rng = ctx.rng("extra");
+        for i in 0..ctx.tier_pick(6u64, 60) {
+            let shape = SHAPES[(i as usize * 7 + ctx.shard) % SHAPES.len()];
+            let case = Json::obj()
+                .set("lane", "chatty")
+                .set("k", *rng.pick(&[10u64, 12, 30, 100]))
+                .set("shape", shape)
+                .set("n", ctx.tier_pick(2500u64, 20_000))
+                .set("order", rng.below(3))
+                .set("seed", ctx.case_seed("chatty", i));
+            run_case(ctx, &case);
+            let case = Json::obj()
+                .set("lane", "adopt")
+                .set("k", *rng.pick(&[10u64, 20, 50, 100]))
+                .set("k_src", *rng.pick(&[10u64, 100, 200, 500]))
+                .set("shape", SHAPES[(i as usize * 5 + ctx.shard + 3) % SHAPES.len()])
+                .set("n", *rng.pick(&[500u64, 5000, 50_000]))
+                .set("via", rng.below(3))
+                .set("used_receiver", rng.chance(0.3))
+                .set("seed", ctx.case_seed("adopt", i));
+            run_case(ctx, &case);
         }
     }
     // the corner where the size limit of the merge matters most: small k, long streams, sorted arrival
